@@ -323,8 +323,8 @@ impl SwiftField for Field52AccountServicingInstitution {
                 let field = Field52C::parse(value)?;
                 Ok(Field52AccountServicingInstitution::C(field))
             }
-            None | Some("") => {
-                // No option letter given: fall back to default parse behavior
+            None => {
+                // No tag information at all (direct API use): fall back to default parse behavior
                 Self::parse(value)
             }
             Some(other) => Err(ParseError::InvalidFormat {
@@ -389,8 +389,8 @@ impl SwiftField for Field52OrderingInstitution {
                 let field = Field52D::parse(value)?;
                 Ok(Field52OrderingInstitution::D(field))
             }
-            None | Some("") => {
-                // No option letter given: fall back to default parse behavior
+            None => {
+                // No tag information at all (direct API use): fall back to default parse behavior
                 Self::parse(value)
             }
             Some(other) => Err(ParseError::InvalidFormat {
@@ -475,8 +475,8 @@ impl SwiftField for Field52CreditorBank {
                 let field = Field52D::parse(value)?;
                 Ok(Field52CreditorBank::D(field))
             }
-            None | Some("") => {
-                // No option letter given: fall back to default parse behavior
+            None => {
+                // No tag information at all (direct API use): fall back to default parse behavior
                 Self::parse(value)
             }
             Some(other) => Err(ParseError::InvalidFormat {
@@ -552,8 +552,8 @@ impl SwiftField for Field52DrawerBank {
                 let field = Field52D::parse(value)?;
                 Ok(Field52DrawerBank::D(field))
             }
-            None | Some("") => {
-                // No option letter given: fall back to default parse behavior
+            None => {
+                // No tag information at all (direct API use): fall back to default parse behavior
                 Self::parse(value)
             }
             Some(other) => Err(ParseError::InvalidFormat {
